@@ -93,6 +93,9 @@ same lines, they keep their last honest result.
   C09-r3m1 (the voting machine's clean-up compares the vote being processed instead of the stored
   entries — different only when verification is ASYNCHRONOUS): the replica harness verified
   synchronously only; see §10/C09 for the asynchronous mode added for it.
+  C11-r3m2 (cache key without part boundaries) led to repair 529e39b and the `cutA/cutB` parts of the
+  certificate family. C18-r3m3 (Shuffle treats seed 0 as "no seed given" and seeds from the clock) was
+  missed: the twins family now repeats a shuffle with the seeds 0, 1, -1 and the int64 extremes.
 * C08-m2 (`signedBy` accepts multi-signer view signatures) was missed: the timeout injection got
   a `multi-viewsig` kind (the sender's genuine signature combined with another replica's).
 * C10-m3 (the RequestBlock handler converts the hash field with a slice-to-array conversion that
